@@ -117,7 +117,8 @@ namespace RecInt
     }
     template <size_t K, typename T>
     inline __RECINT_IS_SIGNED(T, rint<K>&) operator-=(rint<K>& a, const T& b) {
-        sub(a, b);
+        if (b < 0) add(a, -b);
+        else sub(a, b);
         return a;
     }
 
